@@ -493,7 +493,8 @@ class SSHConfig:
         :param dict config: the currently parsed config
         :param str hostname: the hostname whose config is being looked up
         """
-        for k in config:
+        # HostName goes first: %h in the other values means its expanded form
+        for k in sorted(config, key=lambda key: key != "hostname"):
             if config[k] is None:
                 continue
             tokenizer = partial(self._tokenize, config, target_hostname, k)
